@@ -46,8 +46,31 @@ func c20Run(c *mc.Ctx) {
 	mutateClone := c.Bool()
 	mut := c.Pick(11)
 	p, w := genPacket(c, level, fixedPresets[0])
-	// start state "extension list emptied but still allocated": delete every element first
-	if w.X && w.Is8285() && len(w.Elements()) > 0 && c.Bool() {
+	// start state "extension list emptied but still allocated": delete every element first;
+	// or "list with spare capacity": delete only the first element
+	emptied := 0
+	if w.X && w.Is8285() && len(w.Elements()) > 0 && (mut == 6 || mut == 7 || mut == 10) {
+		// (only with the mutations that add or delete extensions: spare capacity of the list
+		// is what these start states are about)
+		emptied = c.Pick(3)
+	}
+	if emptied == 2 && len(w.Elements()) >= 2 {
+		first := w.Elements()[0]
+		if err := p.DelExtension(first.ID); err != nil {
+			c.Failf("delextension-refused", "%s: DelExtension(%d): %v", describeWire(w), first.ID, err)
+		}
+		var kept []ref.Item
+		dropped := false
+		for _, it := range w.Items {
+			if !dropped && it.Kind == ref.ItemElem && it.Elem.ID == first.ID {
+				dropped = true
+				continue
+			}
+			kept = append(kept, it)
+		}
+		w.Items = kept
+	}
+	if emptied == 1 {
 		for _, e := range w.Elements() {
 			if err := p.DelExtension(e.ID); err != nil {
 				c.Failf("delextension-refused", "%s: DelExtension(%d): %v", describeWire(w), e.ID, err)
